@@ -11,6 +11,7 @@ import (
 	"fmt"
 	"os"
 	"path/filepath"
+	"runtime/pprof"
 	"strings"
 
 	"github.com/aergoio/aergo-lib/db"
@@ -20,6 +21,7 @@ import (
 	"github.com/aergoio/aergo/v2/internal/enc/proto"
 	"github.com/aergoio/aergo/v2/types"
 	"github.com/aergoio/aergo/v2/zz_verif/vh"
+	raftlib "github.com/aergoio/etcd/raft"
 	"github.com/aergoio/etcd/raft/raftpb"
 	"github.com/libp2p/go-libp2p/core/crypto"
 	"github.com/rs/zerolog"
@@ -86,11 +88,202 @@ type session struct {
 	where  map[string]uint64 // block hash -> index of its most recent write
 	ccids  []uint64
 	nblk   uint64
+
+	// crash points: the store is wrapped by a journal of write units
+	j    *journal
+	cuts bool     // explore the crash points of the operations of this session
+	hold bool     // op lines are held back (the cut lines of an operation precede it in the op stream)
+	held []heldOp
+}
+
+type heldOp struct {
+	line, out  string
+	nontrivial bool
 }
 
 func (s *session) op(line, out string, nontrivial bool) {
+	if s.hold {
+		s.held = append(s.held, heldOp{line, out, nontrivial})
+		return
+	}
 	s.ops = append(s.ops, line+" => "+out)
 	s.run.Op(line, out, nontrivial)
+}
+
+// refState is the property's view of the durable state at one moment.
+type refState struct {
+	log   map[uint64]*refEntry
+	last  uint64
+	hs    *raftpb.HardState
+	snap  *raftpb.Snapshot
+	ident *consensus.RaftIdentity
+}
+
+func (s *session) ref() refState {
+	l := make(map[uint64]*refEntry, len(s.log))
+	for k, v := range s.log {
+		l[k] = v
+	}
+	return refState{log: l, last: s.last, hs: s.hs, snap: s.snap, ident: s.ident}
+}
+
+// view: everything read back once through the real getters of one ChainDB.
+type view struct {
+	last    uint64
+	lastErr error
+	ents    []*consensus.WalEntry // index 0..mx
+	errs    []error
+	hs      *raftpb.HardState
+	hsErr   error
+	snap    *raftpb.Snapshot
+	ident   *consensus.RaftIdentity
+	bestTok string
+	cdb     *chain.ChainDB
+}
+
+func readView(cdb *chain.ChainDB, mx uint64) (v *view, panicked bool) {
+	v = &view{cdb: cdb}
+	_, panicked = vh.Guard(func() string {
+		v.last, v.lastErr = cdb.GetRaftEntryLastIdx()
+		for i := uint64(0); i <= mx; i++ {
+			e, err := cdb.GetRaftEntry(i)
+			v.ents, v.errs = append(v.ents, e), append(v.errs, err)
+		}
+		v.hs, v.hsErr = cdb.GetHardState()
+		v.snap, _ = cdb.GetSnapshot()
+		v.ident, _ = cdb.GetIdentity()
+		v.bestTok = "none"
+		if b, _ := cdb.GetBestBlock(); b != nil {
+			v.bestTok = fmt.Sprintf("%s/%d", hx(b.BlockHash()), b.BlockNo())
+		}
+		return ""
+	})
+	return
+}
+
+func (v *view) dump() string {
+	var ents []string
+	for i := range v.ents {
+		ents = append(ents, fmt.Sprintf("%d:%s", i, showGetOn(v.cdb, v.ents[i], v.errs[i])))
+	}
+	return fmt.Sprintf("last=%d ents=%s hs=%s snap=%s id=%s best=%s", v.last, strings.Join(ents, " "), showHS(v.hs), showSnap(v.snap), showIdent(v.ident), v.bestTok)
+}
+
+// agrees: which parts of the view equal the reference r (log = last index and every index 1..mx).
+func (r *refState) agrees(v *view) (logOK, hsOK, snapOK, identOK bool) {
+	logOK = v.lastErr == nil && v.last == r.last
+	for j := 1; j < len(v.ents) && logOK; j++ {
+		e, err := v.ents[j], v.errs[j]
+		x, live := r.log[uint64(j)]
+		if live && uint64(j) <= r.last {
+			if err != nil || int(e.Type) != x.typ || e.Term != x.term || e.Index != x.index || !bytes.Equal(e.Data, x.data) {
+				logOK = false
+			}
+		} else if err == nil {
+			logOK = false
+		}
+	}
+	if r.hs == nil {
+		hsOK = v.hsErr != nil
+	} else {
+		hsOK = v.hsErr == nil && v.hs.Term == r.hs.Term && v.hs.Vote == r.hs.Vote && v.hs.Commit == r.hs.Commit
+	}
+	if (v.snap == nil) != (r.snap == nil) {
+		snapOK = false
+	} else if v.snap == nil {
+		snapOK = true
+	} else {
+		a, _ := v.snap.Marshal()
+		b, _ := r.snap.Marshal()
+		snapOK = bytes.Equal(a, b)
+	}
+	identOK = (v.ident == nil) == (r.ident == nil) && (v.ident == nil || *v.ident == *r.ident)
+	return
+}
+
+// journaled runs one operation of the session with the journal on and then visits its crash points:
+// the store content after every prefix of the operation's write units (0 .. n) is rebuilt, a fresh
+// ChainDB is started on it (a restart after a crash at that point) and everything is read back.
+// kind: what the operation is for the crash oracle ("save", "write", "hard", "snap", "ident"; "" = correspondence only).
+func (s *session) journaled(kind string, f func()) {
+	if !s.cuts {
+		f()
+		return
+	}
+	pre := content(s.store)
+	ref0 := s.ref()
+	valid0 := s.valid
+	s.hold = true
+	s.j.start()
+	f()
+	ev := s.j.stop()
+	s.hold = false
+	held := s.held
+	s.held = nil
+	if len(held) == 1 {
+		s.crashPoints(kind, pre, ev, held[0].line, ref0, valid0 && s.valid)
+	}
+	for _, h := range held {
+		s.op(h.line, h.out, h.nontrivial)
+	}
+}
+
+func (s *session) crashPoints(kind string, pre map[string][]byte, ev []jevent, line string, ref0 refState, valid bool) {
+	var units []jevent
+	for _, e := range ev {
+		if e.isWrite() {
+			units = append(units, e)
+		}
+	}
+	n := len(units)
+	ref1 := s.ref()
+	mx := s.maxIdx
+	s.run.Count(fmt.Sprintf("cut:units=%d(%s)", n, strings.SplitN(line, " ", 2)[0]))
+	m := cloneContent(pre)
+	for k := 0; k <= n; k++ {
+		if k > 0 {
+			applyUnit(m, units[k-1], -1)
+		}
+		cdb, err := chain.VerifRaftChainDBOn(materialise(m))
+		out := "restart-fails"
+		var v *view
+		if err == nil {
+			var p bool
+			if v, p = readView(cdb, mx+2); p {
+				out = "panic"
+			} else {
+				out = v.dump()
+			}
+		}
+		s.op(fmt.Sprintf("cut %d %d %s", k, mx, line), fmt.Sprintf("n=%d %s", n, out), true)
+		if err != nil || !valid || kind == "" || out == "panic" {
+			continue
+		}
+		// the crash oracle: whatever a restarted node reads is the acknowledged state before the operation or the
+		// state the operation was asked to produce, never a mixture inside the log
+		l0, h0, s0, i0 := ref0.agrees(v)
+		l1, h1, s1, i1 := ref1.agrees(v)
+		where := fmt.Sprintf("crash after %d of the %d write units of [%s]: ", k, n, line)
+		if !l0 && !l1 {
+			s.fail(where + "the log read back after the restart (last index, entries) is neither the log before the operation nor the log after it")
+		}
+		if !h0 && !h1 {
+			s.fail(where + "the hard state read back is neither the one before nor the one after the operation")
+		}
+		if !s0 && !s1 {
+			s.fail(where + "the snapshot read back is neither the one before nor the one after the operation")
+		}
+		if !i0 && !i1 {
+			s.fail(where + "the identity read back is neither the one before nor the one after the operation")
+		}
+		if kind == "save" && h1 && !h0 && !l1 {
+			s.fail(where + "the hard state of the call is durable before its entries")
+		}
+		if k == n && !(l1 && h1 && s1 && i1) {
+			s.fail(where + "the journal of write units does not reproduce the store")
+		}
+		s.run.Count("cut:oracle")
+	}
 }
 
 func (s *session) fail(what string) {
@@ -109,7 +302,10 @@ func (s *session) newBlock() *blk {
 
 func (s *session) open() {
 	var err error
-	s.store = db.NewDB(db.MemoryImpl, s.dir)
+	if s.j == nil {
+		s.j = &journal{}
+	}
+	s.store = &jdb{inner: db.NewDB(db.MemoryImpl, s.dir), j: s.j}
 	if s.cdb, err = chain.VerifRaftChainDBOn(s.store); err != nil {
 		panic(err)
 	}
@@ -149,7 +345,7 @@ func (s *session) restart() {
 	out := "ok"
 	if hard {
 		s.store.Close()
-		s.store = db.NewDB(db.MemoryImpl, s.dir)
+		s.store = &jdb{inner: db.NewDB(db.MemoryImpl, s.dir), j: s.j}
 		s.run.Count("restart:close+reopen-file")
 	} else {
 		s.run.Count("restart:fresh-chaindb-same-store")
@@ -164,10 +360,12 @@ func (s *session) restart() {
 	s.op("restart", out, true)
 }
 
-func (s *session) showEntry(e *consensus.WalEntry) string {
+func (s *session) showEntry(e *consensus.WalEntry) string { return showEntryOn(s.cdb, e) }
+
+func showEntryOn(cdb *chain.ChainDB, e *consensus.WalEntry) string {
 	base := fmt.Sprintf("%d,%d,%d,%s", int(e.Type), e.Term, e.Index, hx(e.Data))
 	if e.Type == consensus.EntryBlock {
-		b, err := s.cdb.GetBlock(e.Data)
+		b, err := cdb.GetBlock(e.Data)
 		var nb *chain.ErrNoBlock
 		switch {
 		case err == nil:
@@ -181,10 +379,12 @@ func (s *session) showEntry(e *consensus.WalEntry) string {
 	return base
 }
 
-func (s *session) showGet(e *consensus.WalEntry, err error) string {
+func (s *session) showGet(e *consensus.WalEntry, err error) string { return showGetOn(s.cdb, e, err) }
+
+func showGetOn(cdb *chain.ChainDB, e *consensus.WalEntry, err error) string {
 	switch {
 	case err == nil:
-		return s.showEntry(e)
+		return showEntryOn(cdb, e)
 	case errors.Is(err, chain.ErrNoWalEntry):
 		return "absent"
 	case errors.Is(err, chain.ErrMismatchedEntry):
@@ -222,24 +422,30 @@ func showSnap(sn *raftpb.Snapshot) string {
 func (s *session) dump() {
 	mx := s.maxIdx
 	line := fmt.Sprintf("dump %d", mx)
+	out := dumpOf(s.cdb, mx)
+	s.op(line, out, s.last > 0)
+	s.oracle()
+}
+
+// dumpOf reads everything back through the real getters of cdb.
+func dumpOf(cdb *chain.ChainDB, mx uint64) string {
 	out, _ := vh.Guard(func() string {
-		last, _ := s.cdb.GetRaftEntryLastIdx()
+		last, _ := cdb.GetRaftEntryLastIdx()
 		var ents []string
 		for i := uint64(0); i <= mx+2; i++ {
-			e, err := s.cdb.GetRaftEntry(i)
-			ents = append(ents, fmt.Sprintf("%d:%s", i, s.showGet(e, err)))
+			e, err := cdb.GetRaftEntry(i)
+			ents = append(ents, fmt.Sprintf("%d:%s", i, showGetOn(cdb, e, err)))
 		}
-		hs, _ := s.cdb.GetHardState()
-		sn, _ := s.cdb.GetSnapshot()
-		id, _ := s.cdb.GetIdentity()
+		hs, _ := cdb.GetHardState()
+		sn, _ := cdb.GetSnapshot()
+		id, _ := cdb.GetIdentity()
 		best := "none"
-		if b, _ := s.cdb.GetBestBlock(); b != nil {
+		if b, _ := cdb.GetBestBlock(); b != nil {
 			best = fmt.Sprintf("%s/%d", hx(b.BlockHash()), b.BlockNo())
 		}
 		return fmt.Sprintf("last=%d ents=%s hs=%s snap=%s id=%s best=%s", last, strings.Join(ents, " "), showHS(hs), showSnap(sn), showIdent(id), best)
 	})
-	s.op(line, out, s.last > 0)
-	s.oracle()
+	return out
 }
 
 // oracle: the property evaluated on the real getters against the reference log.
@@ -435,6 +641,224 @@ func (s *session) readall() {
 	}
 }
 
+func showRaftEnts(ents []raftpb.Entry) string {
+	var b strings.Builder
+	for _, e := range ents {
+		switch {
+		case e.Type == raftpb.EntryConfChange:
+			fmt.Fprintf(&b, " c,%d,%d,%s", e.Term, e.Index, hx(e.Data))
+		case e.Data == nil:
+			fmt.Fprintf(&b, " n,%d,%d,-", e.Term, e.Index)
+		default:
+			blk, uerr := raftv2.VerifUnmarshalBlock(e.Data)
+			if uerr != nil {
+				fmt.Fprintf(&b, " n,%d,%d,undecodable", e.Term, e.Index)
+			} else {
+				fmt.Fprintf(&b, " n,%d,%d,%s/%d", e.Term, e.Index, hx(blk.BlockHash()), blk.BlockNo())
+			}
+		}
+	}
+	return b.String()
+}
+
+// handed: what the restart path handed (or would hand) to the consensus library
+type handed struct {
+	class string // nowal:… | emptylog | fatal:… | raft-panics | ok
+	snap  *raftpb.Snapshot
+	hs    raftpb.HardState
+	ents  []raftpb.Entry
+	ident consensus.RaftIdentity
+	srv   *raftv2.VerifServer
+}
+
+func (h *handed) String() string {
+	if h.class != "ok" && h.class != "raft-panics" {
+		return h.class
+	}
+	sn := "none"
+	if h.snap != nil {
+		sn = fmt.Sprintf("%d,%d", h.snap.Metadata.Index, h.snap.Metadata.Term)
+	}
+	id := h.ident
+	return fmt.Sprintf("%s snap=%s hs=%s id=%s ents=%d%s", h.class, sn, showHS(&h.hs), showIdent(&id), len(h.ents), showRaftEnts(h.ents))
+}
+
+// handOver runs the restart path of a node configured as cl on the WAL cdb: the real HasWal, then (after
+// checking with the non-fatal getters that none of the logger.Fatal exits of the path is due) the real
+// restartNode: loadSnapshot, replayWAL, Cluster.Recover and the restart of etcd/raft on what was replayed.
+// mk (may be nil) builds the node the returned server continues with.
+func handOver(cdb *chain.ChainDB, cl *raftv2.Cluster, tr *raftv2.VerifTransport, mk func(*raftlib.Config, []raftlib.Peer) raftlib.Node) *handed {
+	h := &handed{}
+	has, err := cl.VerifHasWal(cdb)
+	if !has {
+		switch {
+		case err == nil:
+			h.class = "nowal:noidentity"
+		case errors.Is(err, chain.ErrWalNotEqualIdentityName):
+			h.class = "nowal:name"
+		case errors.Is(err, chain.ErrWalNotEqualIdentityPeerID):
+			h.class = "nowal:peer"
+		case errors.Is(err, chain.ErrWalNoHardState):
+			h.class = "nowal:nohardstate"
+		default:
+			h.class = "nowal:other"
+		}
+		return h
+	}
+	wal := raftv2.NewWalDB(cdb)
+	last, _ := cdb.GetRaftEntryLastIdx()
+	snapshot, _ := cdb.GetSnapshot()
+	if last == 0 && snapshot == nil {
+		h.class = "emptylog"
+		return h
+	}
+	id, st, ents, err := wal.ReadAll(snapshot)
+	switch {
+	case err != nil:
+		h.class = "fatal:read:" + showReadErr(err)
+		return h
+	case id == nil || id.ClusterID == 0:
+		h.class = "fatal:identity"
+		return h
+	case snapshot != nil && snapshot.Metadata.Index == 0:
+		h.class = "fatal:snap-out-of-date"
+		return h
+	}
+	h.snap, h.hs, h.ents, h.ident = snapshot, *st, ents, *id
+	srv, ho, panicked := raftv2.VerifRestartServer(cdb, cl, tr, mk)
+	h.srv = srv
+	h.class = "ok"
+	if panicked != nil {
+		h.class = "raft-panics"
+	}
+	// from here on: what is really in the storage handed to etcd/raft
+	h.hs, h.ents, h.ident = ho.Hard, ho.Ents, ho.Identity
+	if ho.Snap.Metadata.Index == 0 {
+		h.snap = nil
+	} else {
+		sn := ho.Snap
+		h.snap = &sn
+	}
+	return h
+}
+
+// expectHandOver: what the property expects of a restart in the reference state r for a node configured (name, peer).
+// wantOK: the WAL is the node's, complete above its snapshot and readable, so the library must be handed exactly `want`.
+func (r *refState) expectHandOver(name, peer string) (class string, want []*refEntry) {
+	switch {
+	case r.ident == nil:
+		return "nowal", nil
+	case r.ident.Name != name || r.ident.PeerID != peer || r.hs == nil:
+		return "nowal", nil
+	case r.last == 0 && r.snap == nil:
+		return "emptylog", nil
+	}
+	var snapIdx, snapTerm uint64
+	if r.snap != nil {
+		snapIdx, snapTerm = r.snap.Metadata.Index, r.snap.Metadata.Term
+	}
+	for i := snapIdx + 1; i <= r.last; i++ {
+		x := r.log[i]
+		if x == nil || x.term < snapTerm {
+			return "fatal", nil
+		}
+		want = append(want, x)
+	}
+	if r.ident.ClusterID == 0 || (r.snap != nil && snapIdx == 0) {
+		return "fatal", nil
+	}
+	return "handed", want
+}
+
+// checkHanded compares what was handed over with the reference entries (byte for byte with what etcd/raft gave to SaveEntry).
+func (s *session) checkHanded(where string, h *handed, r *refState, want []*refEntry) {
+	if len(h.ents) != len(want) {
+		s.fail(fmt.Sprintf("%s: the restarted node hands %d entries to the consensus library, it acknowledged %d after its snapshot", where, len(h.ents), len(want)))
+		return
+	}
+	for k, x := range want {
+		e := h.ents[k]
+		var wdata []byte
+		wtype := raftpb.EntryNormal
+		switch x.typ {
+		case int(consensus.EntryBlock):
+			wdata, _ = raftv2.VerifMarshalBlock(x.blk.b)
+		case int(consensus.EntryConfChange):
+			wdata, wtype = x.data, raftpb.EntryConfChange
+		}
+		if x.raw != nil {
+			wdata, wtype = x.raw.Data, x.raw.Type
+		}
+		if e.Type != wtype || e.Term != x.term || e.Index != x.index || !bytes.Equal(e.Data, wdata) {
+			s.fail(fmt.Sprintf("%s: entry %d handed to the consensus library differs from the one acknowledged", where, x.index))
+		}
+	}
+	// the commit index handed over is the stored one, or the snapshot's index if that is higher (what a snapshot contains is committed)
+	wantCommit := uint64(0)
+	if r.hs != nil {
+		wantCommit = r.hs.Commit
+	}
+	if r.snap != nil && r.snap.Metadata.Index > wantCommit {
+		wantCommit = r.snap.Metadata.Index
+	}
+	if r.hs == nil || h.hs.Term != r.hs.Term || h.hs.Vote != r.hs.Vote || h.hs.Commit != wantCommit {
+		s.fail(fmt.Sprintf("%s: hard state handed over %s, acknowledged %s", where, showHS(&h.hs), showHS(r.hs)))
+	}
+	if (h.snap == nil) != (r.snap == nil) || (h.snap != nil && (h.snap.Metadata.Index != r.snap.Metadata.Index || h.snap.Metadata.Term != r.snap.Metadata.Term || !bytes.Equal(h.snap.Data, r.snap.Data))) {
+		s.fail(where + ": snapshot handed over differs from the one written last")
+	}
+	if h.ident != *r.ident {
+		s.fail(where + ": identity handed over differs from the one written")
+	}
+}
+
+func peerOfB58(b58 string) types.PeerID {
+	for _, p := range nodePeers {
+		if types.IDB58Encode(p) == b58 {
+			return p
+		}
+	}
+	return ""
+}
+
+// handover: the restart path on the session's WAL, for a node configured mostly as the stored identity says.
+func (s *session) handover() {
+	name, peer := fmt.Sprintf("node%d", s.rng.Intn(3)), nodePeers[s.rng.Intn(3)]
+	if s.ident != nil && s.rng.Chance(5, 6) {
+		name, peer = s.ident.Name, peerOfB58(s.ident.PeerID)
+	}
+	cl := raftv2.VerifNewClusterNamed(name, peer)
+	cfg := cl.VerifIdentity()
+	h := handOver(s.cdb, cl, &raftv2.VerifTransport{}, nil)
+	if h.srv != nil {
+		h.srv.Cluster() // nothing runs on this server: it only held the hand-over
+	}
+	s.op(fmt.Sprintf("handover %s,%s", dash(cfg.Name), dash(cfg.PeerID)), h.String(), h.class == "ok")
+	s.run.Count("handover:" + strings.SplitN(h.class, ":", 2)[0])
+	if !s.valid {
+		return
+	}
+	r := s.ref()
+	class, want := r.expectHandOver(cfg.Name, cfg.PeerID)
+	got := strings.SplitN(h.class, ":", 2)[0]
+	switch class {
+	case "handed":
+		if got != "ok" && got != "raft-panics" {
+			s.fail(fmt.Sprintf("restart of a node with a complete WAL does not hand the log over (%s)", h.class))
+			return
+		}
+		s.checkHanded("restart", h, &r, want)
+	case "fatal":
+		if got == "ok" || got == "raft-panics" {
+			s.fail("restart hands a log over although the stored log is incomplete above the snapshot (or identity/snapshot unusable)")
+		}
+	default:
+		if got != class {
+			s.fail(fmt.Sprintf("restart decision %s, expected %s (identity %s, config %s/%s)", h.class, class, showIdent(s.ident), cfg.Name, cfg.PeerID))
+		}
+	}
+}
+
 func (s *session) ofblock() {
 	if len(s.blocks) == 0 {
 		return
@@ -506,6 +930,23 @@ var somePeerID = func() []byte {
 		panic(err)
 	}
 	return []byte(pid)
+}()
+
+// three nodes with real p2p peer ids (a raft identity carries the base58 form)
+var nodePeers = func() []types.PeerID {
+	var out []types.PeerID
+	for i := 0; i < 3; i++ {
+		_, pub, err := crypto.GenerateSecp256k1Key(bytes.NewReader(bytes.Repeat([]byte{byte(11 + i)}, 64)))
+		if err != nil {
+			panic(err)
+		}
+		pid, err := types.IDFromPublicKey(pub)
+		if err != nil {
+			panic(err)
+		}
+		out = append(out, pid)
+	}
+	return out
 }()
 
 type genEntry struct {
@@ -628,6 +1069,10 @@ func (s *session) save() {
 
 // saveWith: one SaveEntry call on the session's live WalDB object (b may be empty: hard state only)
 func (s *session) saveWith(state raftpb.HardState, b []*genEntry, kind string) {
+	s.journaled("save", func() { s.saveWith0(state, b, kind) })
+}
+
+func (s *session) saveWith0(state raftpb.HardState, b []*genEntry, kind string) {
 	var toks []string
 	var raws []raftpb.Entry
 	for _, g := range b {
@@ -709,6 +1154,14 @@ func (s *session) burst() {
 
 // direct ChainDB.WriteRaftEntry; wellFormed=false produces the malformed stream
 func (s *session) write(wellFormed bool) {
+	k := ""
+	if wellFormed {
+		k = "write"
+	}
+	s.journaled(k, func() { s.write0(wellFormed) })
+}
+
+func (s *session) write0(wellFormed bool) {
 	var b []*genEntry
 	kind := ""
 	if wellFormed {
@@ -802,9 +1255,11 @@ func (s *session) stepOnce(malformed bool) {
 		if s.rng.Chance(1, 6) {
 			h = raftpb.HardState{}
 		}
-		out := res(func() error { return s.cdb.WriteHardState(&h) })
-		s.op(fmt.Sprintf("hard %d,%d,%d", h.Term, h.Vote, h.Commit), out, true)
-		s.hs = &h
+		s.journaled("hard", func() {
+			out := res(func() error { return s.cdb.WriteHardState(&h) })
+			s.op(fmt.Sprintf("hard %d,%d,%d", h.Term, h.Vote, h.Commit), out, true)
+			s.hs = &h
+		})
 		s.run.Count("op:hard")
 	case r < 74:
 		b := s.newBlock()
@@ -816,18 +1271,22 @@ func (s *session) stepOnce(malformed bool) {
 		}
 		data, _ := consensus.NewSnapshotData(members, nil, b.b).Encode()
 		sn := &raftpb.Snapshot{Data: data, Metadata: raftpb.SnapshotMetadata{Index: idx, Term: term, ConfState: raftpb.ConfState{Nodes: []uint64{1, 2, uint64(3 + s.rng.Intn(3))}}}}
-		out := res(func() error { return s.cdb.WriteSnapshot(sn) })
-		s.op(fmt.Sprintf("snap %d,%d,%s", idx, term, b.tok()), out, true)
-		s.snap = sn
+		s.journaled("snap", func() {
+			out := res(func() error { return s.cdb.WriteSnapshot(sn) })
+			s.op(fmt.Sprintf("snap %d,%d,%s", idx, term, b.tok()), out, true)
+			s.snap = sn
+		})
 		s.run.Count("op:snap")
 	case r < 79:
-		id := &consensus.RaftIdentity{ClusterID: uint64(s.rng.Intn(3)), ID: uint64(s.rng.Intn(5)), Name: fmt.Sprintf("node%d", s.rng.Intn(4)), PeerID: fmt.Sprintf("16Uiu2peer%d", s.rng.Intn(4))}
+		id := &consensus.RaftIdentity{ClusterID: uint64(s.rng.Intn(3)), ID: uint64(s.rng.Intn(5)), Name: fmt.Sprintf("node%d", s.rng.Intn(3)), PeerID: types.IDB58Encode(nodePeers[s.rng.Intn(3)])}
 		if s.rng.Chance(1, 8) {
 			id = &consensus.RaftIdentity{}
 		}
-		out := res(func() error { return s.cdb.WriteIdentity(id) })
-		s.op(fmt.Sprintf("ident %d,%d,%s,%s", id.ClusterID, id.ID, dash(id.Name), dash(id.PeerID)), out, true)
-		s.ident = id
+		s.journaled("ident", func() {
+			out := res(func() error { return s.cdb.WriteIdentity(id) })
+			s.op(fmt.Sprintf("ident %d,%d,%s,%s", id.ClusterID, id.ID, dash(id.Name), dash(id.PeerID)), out, true)
+			s.ident = id
+		})
 		s.run.Count("op:ident")
 	case r < 84:
 		b := s.newBlock()
@@ -837,9 +1296,11 @@ func (s *session) stepOnce(malformed bool) {
 		s.best = b
 		s.run.Count("op:best")
 	case r < 88:
-		out := res(func() error { s.cdb.ClearWAL(); return nil })
-		s.op("clear", out, true)
-		s.log, s.last, s.hs, s.snap, s.ident = map[uint64]*refEntry{}, 0, nil, nil, nil
+		s.journaled("", func() {
+			out := res(func() error { s.cdb.ClearWAL(); return nil })
+			s.op("clear", out, true)
+			s.log, s.last, s.hs, s.snap, s.ident = map[uint64]*refEntry{}, 0, nil, nil, nil
+		})
 		s.run.Count("op:clear")
 	case r < 95:
 		if s.rng.Chance(1, 10) {
@@ -849,8 +1310,11 @@ func (s *session) stepOnce(malformed bool) {
 			break
 		}
 		term, commit := uint64(1+s.rng.Intn(int(s.term)+1)), uint64(s.rng.Intn(int(s.last)+3))
-		out := res(func() error { return s.cdb.ResetWAL(&types.HardStateInfo{Term: term, Commit: commit}) })
-		s.op(fmt.Sprintf("reset %d,%d", term, commit), out, out == "ok")
+		var out string
+		s.journaled("", func() {
+			out = res(func() error { return s.cdb.ResetWAL(&types.HardStateInfo{Term: term, Commit: commit}) })
+			s.op(fmt.Sprintf("reset %d,%d", term, commit), out, out == "ok")
+		})
 		s.run.Count("op:reset->" + out)
 		s.log, s.snap, s.ident = map[uint64]*refEntry{}, nil, nil
 		s.hs = &raftpb.HardState{Term: term, Commit: commit}
@@ -884,12 +1348,16 @@ func (s *session) stepOnce(malformed bool) {
 	if s.rng.Chance(1, 2) {
 		s.ofblock()
 	}
+	if s.rng.Chance(1, 3) {
+		s.handover()
+	}
 }
 
 func walSessions(run *vh.Run) {
 	s := &session{run: run, rng: run.Rng, dir: filepath.Join(run.Out, "waldb")}
 	nsess := run.Pick(1500, 16000)
 	for i := 0; i < nsess; i++ {
+		s.cuts = s.rng.Chance(1, 2)
 		s.start()
 		malformed := i%6 == 5
 		if malformed {
@@ -1015,6 +1483,7 @@ type memCase struct {
 	head    string // "A=… R=… raft=… P=…"
 	health  map[uint64]int
 	n       int
+	wal     *chain.ChainDB // what the request / raft-log paths write conf-change progress to
 }
 
 func (c *memCase) build() bool {
@@ -1051,6 +1520,9 @@ func (c *memCase) setRaft(rc raftCfg) string {
 		}
 		return 0
 	}
+	if c.wal != nil {
+		c.cl.VerifAttachServer(c.wal)
+	}
 	c.n, c.health, _ = c.cl.VerifMemberHealth()
 	return fmt.Sprintf("raft=%d,%d,%d,%d,%d,%d P=%s", b(rc.hasNode), rc.statusID, b(rc.leader), rc.self, rc.last, raftv2.VerifSlowGap(), strings.Join(pt, ";"))
 }
@@ -1084,9 +1556,14 @@ func (c *memCase) request(raftTok string, ccType int, m *mem) {
 	if p || m == nil {
 		return
 	}
-	// oracle: the refusal rules of the property
+	c.refusalOracle(line, out, "membership change accepted", ccType, m, accepted, true)
+}
+
+// refusalOracle: the refusal rules of the property. accepted: the request passed the gate under test;
+// withHealth: the gate includes the availability check (the raft-log path does not).
+func (c *memCase) refusalOracle(line, out, verb string, ccType int, m *mem, accepted, withHealth bool) {
 	bad := func(why string) {
-		c.run.Fail("membership change accepted although "+why, map[string]interface{}{"op": line, "answer": out})
+		c.run.Fail(verb+" although "+why, map[string]interface{}{"op": line, "answer": out})
 	}
 	inRemoved := false
 	for _, r := range c.removed {
@@ -1122,7 +1599,7 @@ func (c *memCase) request(raftTok string, ccType int, m *mem) {
 		if inRemoved && accepted {
 			bad(fmt.Sprintf("it removes the already removed member %d", m.id))
 		}
-		if st, ok := c.health[m.id]; ok && st == 0 && accepted {
+		if st, ok := c.health[m.id]; withHealth && ok && st == 0 && accepted {
 			h := 0
 			for _, v := range c.health {
 				if v == 0 {
@@ -1135,6 +1612,223 @@ func (c *memCase) request(raftTok string, ccType int, m *mem) {
 			}
 		}
 	}
+}
+
+func cmClass(err error) string {
+	switch {
+	case err == nil:
+		return "ok"
+	case errors.Is(err, raftv2.ErrPendingConfChange):
+		return "pending"
+	case errors.Is(err, consensus.ErrInvalidMemberAttr):
+		return "invalidattr"
+	case errors.Is(err, consensus.ErrInvalidMemberID):
+		return "invalidid"
+	case errors.Is(err, consensus.ErrorMembershipChangeSkip):
+		return "notleader"
+	case errors.Is(err, raftv2.ErrConfChangeChannelBusy):
+		return "busy"
+	}
+	if v := vClass(err); v != "other" {
+		return "v:" + v
+	}
+	if e := eClass(err); e != "other" {
+		if e == "invtype" {
+			return "invreqtype" // makeProposal refuses an unknown request type with the same sentinel before any check
+		}
+		return "e:" + e
+	}
+	return "other"
+}
+
+// prod: one request through the production request path: Cluster.ChangeMembership (via "cm") or
+// BlockFactory.MakeConfChangeProposal (via "mk"), on the current cluster and raft status.
+func (c *memCase) prod(raftTok, via string, reqType int, m *mem, pending bool) {
+	ok := 0
+	if _, err := types.ParseMultiaddr(m.addr); err == nil {
+		ok = 1
+	}
+	req := &types.MembershipChange{Type: types.MembershipChangeType(reqType), RequestID: 4711,
+		Attr: &types.MemberAttr{ID: m.id, Name: m.name, Address: m.addr, PeerID: m.peer}}
+	c.cl.VerifSetPending(pending)
+	var cc *raftpb.ConfChange
+	var err error
+	out, p := vh.Guard(func() string {
+		if via == "cm" {
+			cc, err = c.cl.VerifChangeMembershipProd(req, false)
+		} else {
+			cc, err = c.cl.VerifMakeConfChangeProposal(req)
+		}
+		return cmClass(err)
+	})
+	c.cl.VerifSetPending(false)
+	if p {
+		out = "panic"
+	}
+	gen := uint64(1000003) // an added member's id is derived from name, chain id and the clock: fresh
+	eff := *m
+	if reqType == 0 {
+		if cc != nil {
+			gen = cc.NodeID
+		}
+		eff.id = gen
+	}
+	pd := 0
+	if pending {
+		pd = 1
+	}
+	line := fmt.Sprintf("memp %s %s pend=%d via=%s req=%d,%d,%s,%s,%d,%s gen=%d", c.head, raftTok, pd, via, reqType, m.id, dash(m.name), dash(m.addr), ok, hx(m.peer), gen)
+	accepted := out == "ok"
+	c.run.Op(line, out, accepted)
+	c.run.Count(fmt.Sprintf("memp:%s t=%d %s", via, reqType, out))
+	if p || reqType > 1 {
+		return
+	}
+	if accepted && (cc == nil || int(cc.Type) != reqType || cc.NodeID != eff.id) {
+		c.run.Fail("an accepted membership request did not produce the conf change it asks for", map[string]interface{}{"op": line})
+	}
+	c.refusalOracle(line, out, "membership change accepted by "+map[string]string{"cm": "ChangeMembership", "mk": "MakeConfChangeProposal"}[via], reqType, &eff, accepted, true)
+}
+
+func ids(l []uint64) string {
+	var t []string
+	for _, x := range l {
+		t = append(t, fmt.Sprint(x))
+	}
+	return strings.Join(t, ";")
+}
+
+// applyEntry: the raft-log path. A committed conf-change entry carrying member m goes through the real
+// applyConfChange (ValidateConfChangeEntry → validateChangeMembership, then addMember/removeMember) on a
+// freshly built copy of the cluster; the cluster afterwards is the observable.
+func (c *memCase) applyEntry(ccType int, m *mem, ccid uint64) {
+	if !c.build() {
+		panic("cluster build failed")
+	}
+	rc := c.rc
+	rc.hasNode = true // a server that applies committed entries has a raft node
+	c.setRaft(rc)
+	mm := m.member()
+	ctx, err := json.Marshal(mm)
+	var back consensus.Member
+	if err != nil || json.Unmarshal(ctx, &back) != nil {
+		c.run.Count("mema:skipped(member not encodable)")
+		return
+	}
+	cc := raftpb.ConfChange{ID: ccid, Type: raftpb.ConfChangeType(ccType), NodeID: m.id, Context: ctx}
+	data, _ := cc.Marshal()
+	ent := &raftpb.Entry{Type: raftpb.EntryConfChange, Term: 3, Index: 17, Data: data}
+	a0, r0 := c.cl.VerifMembers()
+	var a1, r1 []uint64
+	out, p := vh.Guard(func() string {
+		verr := c.cl.VerifValidateConfChangeEntry(ent)
+		c.cl.VerifApplyConfChange(ent)
+		a1, r1 = c.cl.VerifMembers()
+		return fmt.Sprintf("%s A=%s R=%s", vClass(verr), ids(a1), ids(r1))
+	})
+	if p {
+		out = "panic"
+	}
+	// the member as the decoded entry carries it (what the validation sees)
+	bm := &mem{id: back.ID, name: back.Name, addr: back.Address, peer: back.PeerID}
+	line := fmt.Sprintf("mema %s t=%d m=%s", c.head, ccType, bm.tok())
+	changed := ids(a0) != ids(a1) || ids(r0) != ids(r1)
+	c.run.Op(line, out, changed)
+	c.run.Count(fmt.Sprintf("mema:t=%d %s", ccType, strings.SplitN(out, " ", 2)[0]))
+	if p {
+		return
+	}
+	c.refusalOracle(line, out, "a committed conf-change entry changed the cluster", ccType, bm, changed, false)
+}
+
+func (m *mem) full() string { return m.tok() }
+
+func memList(l []*mem) string {
+	var t []string
+	for _, m := range l {
+		t = append(t, m.tok())
+	}
+	return strings.Join(t, ";")
+}
+
+// recoverFrom: the cluster (c.applied, c.removed) receives a snapshot carrying (sa, sr) through the real
+// publishSnapshot → Cluster.Recover. Afterwards the cluster must be the snapshot's: in particular every
+// member the snapshot lists as removed is known as removed, so that re-adding it is refused.
+func (c *memCase) recoverFrom(sa, sr []*mem, blk *types.Block) {
+	if !c.build() {
+		panic("cluster build failed")
+	}
+	c.setRaft(c.rc)
+	var ms, rs []*consensus.Member
+	for _, m := range sa {
+		ms = append(ms, m.member())
+	}
+	for _, m := range sr {
+		rs = append(rs, m.member())
+	}
+	data, err := consensus.NewSnapshotData(ms, rs, blk).Encode()
+	if err != nil {
+		panic(err)
+	}
+	snap := raftpb.Snapshot{Data: data, Metadata: raftpb.SnapshotMetadata{Index: 9, Term: 2, ConfState: raftpb.ConfState{Nodes: []uint64{1}}}}
+	rebuilt := false
+	c.cl.VerifTransport().OnPeer = func(what string, id uint64) {
+		if what == "removeall" {
+			rebuilt = true
+		}
+	}
+	var a1, r1 []uint64
+	out, p := vh.Guard(func() string {
+		if err := c.cl.VerifPublishSnapshot(snap); err != nil {
+			return "err"
+		}
+		a1, r1 = c.cl.VerifMembers()
+		return fmt.Sprintf("eq=%v A=%s R=%s", !rebuilt, ids(a1), ids(r1))
+	})
+	if p {
+		out = "panic"
+	}
+	line := fmt.Sprintf("memr A=%s RM=%s SA=%s SR=%s", memList(c.applied), memList(c.removed), memList(sa), memList(sr))
+	c.run.Op(line, out, rebuilt)
+	c.run.Count("memr:" + strings.SplitN(out, " ", 2)[0])
+	if p || out == "err" {
+		return
+	}
+	has := func(l []uint64, id uint64) bool {
+		for _, x := range l {
+			if x == id {
+				return true
+			}
+		}
+		return false
+	}
+	for _, m := range sr {
+		if !has(r1, m.id) {
+			c.run.Fail(fmt.Sprintf("after catching up from a snapshot that lists member %d as removed, the cluster does not know it as removed: re-adding it is no longer refused", m.id),
+				map[string]interface{}{"op": line, "answer": out})
+			continue
+		}
+		// and the gate really refuses it
+		if err := c.cl.VerifValidate(raftpb.ConfChangeAddNode, m.member()); err == nil {
+			c.run.Fail(fmt.Sprintf("re-adding removed member %d is accepted after a snapshot catch-up", m.id), map[string]interface{}{"op": line})
+		}
+	}
+	for _, m := range sa {
+		if !has(a1, m.id) {
+			c.run.Fail(fmt.Sprintf("after catching up from a snapshot the cluster lacks member %d of the snapshot", m.id), map[string]interface{}{"op": line, "answer": out})
+		}
+	}
+	if len(a1) != len(uniqIDs(sa)) || len(r1) != len(uniqIDs(sr)) {
+		c.run.Fail("after catching up from a snapshot the cluster has members the snapshot does not list", map[string]interface{}{"op": line, "answer": out})
+	}
+}
+
+func uniqIDs(l []*mem) map[uint64]bool {
+	m := map[uint64]bool{}
+	for _, x := range l {
+		m[x.id] = true
+	}
+	return m
 }
 
 func membership(run *vh.Run) {
@@ -1153,6 +1847,20 @@ func membership(run *vh.Run) {
 		pool = append(pool, &mem{id: uint64(i + 1), name: fmt.Sprintf("bp%d", i+1), addr: fmt.Sprintf("/ip4/10.0.0.%d/tcp/7846", i+1), peer: []byte(pid)})
 	}
 	fresh := pool[8] // never a member: id 9
+	// a chain DB for what the production paths write (conf-change progress) and read (the block of a snapshot)
+	wdir := filepath.Join(run.Out, "memwal")
+	os.MkdirAll(wdir, 0o755)
+	wal, err := chain.VerifRaftChainDBOn(db.NewDB(db.MemoryImpl, wdir))
+	if err != nil {
+		panic(err)
+	}
+	snapBlock := types.NewBlock(&types.BlockHeaderInfo{No: 5, Ts: 5000, ChainId: []byte("c16")}, nil, nil, nil, nil, nil)
+	snapBlock.BlockHash() // sets the Hash field (addBlock stores the encoded block as it is)
+	wal.VerifRaftConnectBest(snapBlock)
+	if b, err := wal.GetBlockByNo(5); err != nil || b == nil {
+		panic(fmt.Sprintf("snapshot block not connected: %v", err))
+	}
+	defer os.RemoveAll(wdir)
 	healthyRaft := func(n int) raftCfg {
 		rc := raftCfg{hasNode: true, statusID: 1, leader: true, self: 1, last: 500}
 		for i := 0; i < n; i++ {
@@ -1164,7 +1872,7 @@ func membership(run *vh.Run) {
 	// (a) validation: every composition (0..5 applied, 0..2 removed) x every request of the request space
 	for n := 0; n <= 5; n++ {
 		for nr := 0; nr <= 2; nr++ {
-			c := &memCase{run: run, applied: pool[:n], removed: pool[5 : 5+nr]}
+			c := &memCase{run: run, applied: pool[:n], removed: pool[5 : 5+nr], wal: wal}
 			c.rc.self = 1
 			if !c.build() {
 				panic("cluster build failed")
@@ -1182,11 +1890,19 @@ func membership(run *vh.Run) {
 				addrs = append(addrs, pool[0].addr, pool[n-1].addr)
 				peers = append(peers, pool[0].peer, pool[n-1].peer)
 			}
+			var adds []*mem
 			for _, id := range ids {
 				for _, nm := range names {
 					for _, ad := range addrs {
 						for _, pe := range peers {
-							c.request(rt, 0, &mem{id: id, name: nm, addr: ad, peer: pe})
+							m := &mem{id: id, name: nm, addr: ad, peer: pe}
+							c.request(rt, 0, m)
+							if id == fresh.id {
+								// the production request paths (the id of an added member is derived, not requested)
+								c.prod(rt, "cm", 0, m, false)
+								c.prod(rt, "mk", 0, m, false)
+							}
+							adds = append(adds, m)
 						}
 					}
 				}
@@ -1194,13 +1910,29 @@ func membership(run *vh.Run) {
 			// remove requests: every id of the universe, with and without attributes
 			for id := uint64(0); id <= 9; id++ {
 				c.request(rt, 1, &mem{id: id})
+				c.prod(rt, "cm", 1, &mem{id: id}, false)
+				c.prod(rt, "mk", 1, &mem{id: id}, false)
 			}
 			c.request(rt, 1, pool[0])
+			c.prod(rt, "cm", 1, pool[0], false)
 			// other conf-change types and the nil member
 			c.request(rt, 2, fresh)
 			c.request(rt, 3, fresh)
 			c.request(rt, 0, nil)
 			c.request(rt, 1, nil)
+			c.prod(rt, "cm", 2, fresh, false)
+			c.prod(rt, "mk", 7, fresh, false)
+			// while a change is pending everything is refused
+			c.prod(rt, "cm", 0, fresh, true)
+			c.prod(rt, "mk", 1, pool[0], true)
+			// the raft-log path: the same requests as committed conf-change entries (each on a fresh copy of the cluster)
+			for _, m := range adds {
+				c.applyEntry(0, m, 0)
+			}
+			for id := uint64(0); id <= 9; id++ {
+				c.applyEntry(1, &mem{id: id, name: "x", addr: "/ip4/10.9.9.9/tcp/1", peer: fresh.peer}, uint64(id%2)*31)
+			}
+			c.applyEntry(2, fresh, 5)
 		}
 	}
 
@@ -1210,7 +1942,7 @@ func membership(run *vh.Run) {
 	raws := []raftv2.VerifProgress{{State: 1, Match: last}, {State: 1, Match: last - gap}, {State: 1, Match: last - gap - 1},
 		{State: 0, Match: last}, {State: 2, Match: last}, {State: 2, Match: 0}}
 	for n := 1; n <= 5; n++ {
-		c := &memCase{run: run, applied: pool[:n], removed: pool[5:6]}
+		c := &memCase{run: run, applied: pool[:n], removed: pool[5:6], wal: wal}
 		c.rc.self = 1
 		if !c.build() {
 			panic("cluster build failed")
@@ -1239,9 +1971,14 @@ func membership(run *vh.Run) {
 			run.Count(fmt.Sprintf("health:N=%d healthy=%d", n, h))
 			for i := 0; i < n; i++ {
 				c.request(rt, 1, &mem{id: pool[i].id})
+				c.prod(rt, "cm", 1, &mem{id: pool[i].id}, false)
+				c.prod(rt, "mk", 1, &mem{id: pool[i].id}, false)
 			}
 			c.request(rt, 1, &mem{id: 99})
 			c.request(rt, 0, fresh)
+			c.prod(rt, "cm", 1, &mem{id: 99}, false)
+			c.prod(rt, "cm", 0, fresh, false)
+			c.prod(rt, "mk", 0, fresh, false)
 		}
 		// degenerate raft status: no node, status id 0, not leader, empty progress, a member without progress row, self not in the table
 		base := healthyRaft(n)
@@ -1266,9 +2003,52 @@ func membership(run *vh.Run) {
 			run.Count("health:degenerate-status")
 			for i := 0; i < n; i++ {
 				c.request(rt, 1, &mem{id: pool[i].id})
+				c.prod(rt, "cm", 1, &mem{id: pool[i].id}, false)
+				c.prod(rt, "mk", 1, &mem{id: pool[i].id}, false)
 			}
 			c.request(rt, 0, fresh)
 			c.request(rt, 2, fresh)
+			c.prod(rt, "cm", 0, fresh, false)
+			c.prod(rt, "mk", 0, fresh, false)
+		}
+	}
+
+	// (d) snapshot catch-up: a cluster (applied, removed) receives a snapshot (publishSnapshot → Cluster.Recover)
+	for n := 0; n <= 4; n++ {
+		for nr := 0; nr <= 2; nr++ {
+			c := &memCase{run: run, applied: pool[:n], removed: pool[5 : 5+nr], wal: wal}
+			c.rc = healthyRaft(n)
+			c.rc.self = 1
+			rev := func(l []*mem) []*mem {
+				var o []*mem
+				for i := len(l) - 1; i >= 0; i-- {
+					o = append(o, l[i])
+				}
+				return o
+			}
+			alt := func(m *mem) *mem { x := *m; x.addr = "/ip4/10.1.1.1/tcp/9"; return &x }
+			ap, rm := pool[:n], pool[5:5+nr]
+			variants := [][2][]*mem{
+				{ap, rm},                            // the same
+				{rev(ap), rev(rm)},                  // the same, other order
+				{ap, append(append([]*mem{}, rm...), pool[7])}, // one more removed member (added and removed while this node lagged)
+				{ap, append([]*mem{pool[7]}, rm...)},
+				{ap, nil},                                      // no removed members in the snapshot
+				{append(append([]*mem{}, ap...), pool[4]), rm}, // one more applied member
+				{append(append([]*mem{}, ap...), pool[4]), append(append([]*mem{}, rm...), pool[7])},
+			}
+			if nr > 0 {
+				variants = append(variants, [2][]*mem{ap, rm[:nr-1]}, [2][]*mem{ap, append([]*mem{alt(rm[0])}, rm[1:]...)},
+					[2][]*mem{ap, append(append([]*mem{}, rm[:nr-1]...), pool[7])}) // same number of removed members, another one
+			}
+			if n > 0 {
+				variants = append(variants, [2][]*mem{ap[:n-1], rm}, [2][]*mem{append([]*mem{alt(ap[0])}, ap[1:]...), rm},
+					[2][]*mem{ap[:n-1], append(append([]*mem{}, rm...), ap[n-1])}, // the last member was removed meanwhile
+					[2][]*mem{append(append([]*mem{}, ap...), ap[0]), rm})         // a member listed twice
+			}
+			for _, v := range variants {
+				c.recoverFrom(v[0], v[1], snapBlock)
+			}
 		}
 	}
 
@@ -1283,7 +2063,7 @@ func membership(run *vh.Run) {
 		for k := 0; k < rng.Intn(3); k++ {
 			rm = append(rm, pool[(perm+n+k)%9])
 		}
-		c := &memCase{run: run, applied: ap, removed: rm}
+		c := &memCase{run: run, applied: ap, removed: rm, wal: wal}
 		self := uint64(1 + rng.Intn(9))
 		c.rc.self = self
 		if !c.build() {
@@ -1304,15 +2084,31 @@ func membership(run *vh.Run) {
 			if rng.Chance(1, 10) {
 				m.id = 0
 			}
-			c.request(rt, rng.Intn(2), m)
+			ty := rng.Intn(2)
+			c.request(rt, ty, m)
+			c.prod(rt, []string{"cm", "mk"}[rng.Intn(2)], ty, m, rng.Chance(1, 12))
+			if k == 0 {
+				c.applyEntry(ty, m, uint64(rng.Intn(3)))
+				c.build() // the entry may have changed the cluster: the remaining requests get a fresh copy
+				c.setRaft(rc)
+			}
 		}
 		run.Count("random-cluster")
 	}
 }
 
 func main() {
+	if sub := os.Getenv("C16_SUB"); strings.HasPrefix(sub, "startnode:") {
+		subStartNode(strings.TrimPrefix(sub, "startnode:"))
+		return
+	}
 	if os.Getenv("C16_LOG") == "" {
 		zerolog.SetGlobalLevel(zerolog.Disabled)
+	}
+	if pf := os.Getenv("C16_PROF"); pf != "" {
+		f, _ := os.Create(pf)
+		pprof.StartCPUProfile(f)
+		defer pprof.StopCPUProfile()
 	}
 	run := vh.Start("c16", "wal: sessions on the real ChainDB (memorydb) with a restart (fresh ChainDB on the same store; every 4th time close + re-open from file) after "+
 		"every operation: SaveEntry (on one live WalDB per process lifetime; bursts of several saves without a restart whose hard states differ in exactly one of term/vote/commit, with and without entries)/WriteRaftEntry batches that append or overwrite a suffix (shorter, equal, longer), mixed block/empty/conf-change entries, hard state, "+
@@ -1322,6 +2118,14 @@ func main() {
 		"(each attribute fresh/duplicate of first/duplicate of last/empty/unparseable; remove of every id), every raw progress vector of 1..5 nodes, degenerate raft status, random clusters up to 7. "+
 		"non-trivial = op succeeded / request accepted; distinct by (op, answer)")
 	defer run.Finish()
-	walSessions(run)
-	membership(run)
+	only := os.Getenv("C16_ONLY") // development aid: run one phase only
+	if only == "" || only == "wal" {
+		walSessions(run)
+	}
+	if only == "" || only == "raft" {
+		raftSessions(run)
+	}
+	if only == "" || only == "mem" {
+		membership(run)
+	}
 }
